@@ -45,7 +45,14 @@
 EXTENDS Integers, Sequences, FiniteSets, TLC, Json
 
 CONSTANTS Dev,        \* subset of AllDev
-          Names,      \* set of [abs: BOOLEAN, segs: Seq(Seg)]
+          Names,      \* set of [abs: BOOLEAN, segs: Seq(Seg), look]   look: how separators and dots are SPELLED -
+                      \*   "ascii": with "/" and "." ;  otherwise with characters that only look like them:
+                      \*   fw  U+FF0F fullwidth solidus + U+FF0E fullwidth full stop   (NFKC maps both to the real ones)
+                      \*   fwl U+FF0F + U+2024 one dot leader (NFKC: ".")     fwa U+FF0F + ASCII dots
+                      \*   bs  U+FF3C fullwidth reverse solidus (NFKC: a backslash, no POSIX separator)
+                      \*   div U+2215, big U+29F8 (no compatibility mapping)   lig U+2105 (NFKC: the letters c / o)
+                      \*   over: the overlong UTF-8 bytes C0 AF (not a character at all)
+                      \* A look-alike name contains no separator: for every site it is ONE plain word
           CMapSites,  \* subset of {"enc", "cmapname", "usecmap", "regord"}
           ImageCases  \* set of [init: subset of {-1, 0, 1}, draws: 1..2, ext, src] for the image site ({} = not explored)
                       \*   ext: how the image dictionary fills the file name's extension (see ExtKinds)
@@ -55,6 +62,8 @@ AllDev == {"CMapNameUnconfined",     \* _load_data joins the name unchecked: any
            "ImageNameUnconfined",    \* _create_unique_image_name joins the XObject name unchecked
            "ScreenBeforeStrip",      \* containment only tested for names that LOOK dangerous (absolute / contain ..),
                                      \* judged on the raw name before its NULs are removed
+           "NormaliseAfterSanitise", \* the image name is NFKC-normalised AFTER separators were replaced: fullwidth solidus and
+                                     \* full stop turn into real ones behind the check
            "ExtFieldsUnvalidated",   \* _save_raw builds the extension ".<bits>.<width>x<height>.img" from the image dictionary's
                                      \* entries without insisting that they are integers (%s instead of %d)
            "CheckedAgainstOneDirectory",  \* the name is validated once, against the package's cmap directory, and then
@@ -137,7 +146,9 @@ RawSuspicious(nm) == IsAbs(nm) \/ \E k \in 1..Len(nm.segs) : nm.segs[k] = "dd"
 \* "to-unicode-" + registry-ordering: the prefix sticks to the first component (and makes the name relative)
 Prefixed(nm) == IF nm.segs = <<>> \/ nm.abs THEN [abs |-> FALSE, segs |-> <<"pfx:e">> \o nm.segs]
                 ELSE [abs |-> FALSE, segs |-> <<"pfx:" \o nm.segs[1]>> \o Tail(nm.segs)]
-Effective(st, nm) == LET n1 == [abs |-> nm.abs, segs |-> StripNul(nm.segs)]
+SplitLooks == {"fw", "fwl", "fwa"}           \* spellings that NFKC turns into real separators (and real dots)
+Effective(st, nm) == LET n1 == IF nm.look = "ascii" THEN [abs |-> nm.abs, segs |-> StripNul(nm.segs)]
+                               ELSE [abs |-> FALSE, segs |-> <<"zz">>]       \* one word that exists nowhere
                      IN IF st = "regord" THEN Prefixed(n1) ELSE n1
 \* file word the last component + ".pickle.gz" denotes, "" if it can exist nowhere in the tree
 FileWord(w) == CASE w \in {"H", "evil"} -> w
@@ -204,7 +215,12 @@ FirstFailure(d, s) == IF s = <<>> THEN "none"
 OpenError == IF name.segs = <<>> THEN "none"
              ELSE LET e == FirstFailure(Start(Out, name), Front(name.segs))
                   IN IF e # "none" THEN e ELSE IF LastWord(name) = "long" THEN "OSError" ELSE "none"
-Coded == "ImageNameUnconfined" \in Dev
+\* is the name joined as a PATH (its separators live)?  ASCII spelling: when it is not sanitised; look-alike
+\* spelling: only when normalisation brings the separators back after the sanitising step
+Coded == IF name.look = "ascii" THEN "ImageNameUnconfined" \in Dev
+         ELSE "NormaliseAfterSanitise" \in Dev /\ name.look \in SplitLooks
+\* U+2105 becomes "c/o": the components around it are words that exist nowhere
+LigSplit == "NormaliseAfterSanitise" \in Dev /\ name.look = "lig" /\ (name.abs \/ Len(name.segs) >= 2)
 \* directory the image file lands in: as coded join(outdir, name + ext); intended: always the output directory
 Target == IF Coded THEN ParentDir(Out, name) ELSE Out
 \* first candidate index that does not exist: -1 (name.ext), 0 (name.0.ext), 1, 2 ...
@@ -224,6 +240,7 @@ FirstFree(S) == IF -1 \notin S THEN -1 ELSE CHOOSE k \in 0..3 : k \notin S /\ \A
 IllTyped == icase.ext \in {"illclean", "lead1", "mid1", "leadW"}
 \* the sanitised name as a word: what matters is whether  word ++ "."  is a special component
 NameWord == IF icase.src = "inline" THEN "plain"                 \* str(id(obj)): not the document's
+            ELSE IF name.look # "ascii" /\ name.segs # <<>> THEN "plain"
             ELSE IF name.segs = <<>> \/ name.segs = <<"e">> THEN "empty"
             ELSE IF name.segs = <<"d">> THEN "dot"
             ELSE "plain"                                         \* (".." ++ "." is "...", a plain word)
@@ -242,7 +259,7 @@ AExport ==
      THEN /\ err' = "OSError" /\ phase' = "done" /\ UNCHANGED <<creates, outfiles, drawn, blame>>      \* File name too long
      ELSE IF Coded /\ OpenError # "none" /\ icase.src = "xobj"  \* (a directory above the root exists: a file is created there)
      THEN /\ err' = OpenError /\ phase' = "done" /\ UNCHANGED <<creates, outfiles, drawn, blame>>
-     ELSE LET T == ExtTarget(IF icase.src = "inline" THEN Out ELSE Target)
+     ELSE LET T == IF LigSplit /\ icase.src = "xobj" THEN Fail ELSE ExtTarget(IF icase.src = "inline" THEN Out ELSE Target)
               \* with a separator in the extension the numbered candidates name.0<ext> ... start with another word
               k == IF icase.ext \in {"lead1", "mid1", "leadW"} THEN -1 ELSE FirstFree(outfiles)
           IN IF T = Fail \/ (icase.ext = "lead1" /\ -1 \in outfiles)
@@ -251,7 +268,9 @@ AExport ==
                   /\ outfiles' = outfiles \cup {k}
                   /\ drawn' = drawn + 1
                   /\ blame' = IF InOut(T) THEN blame
-                              ELSE IF IllTyped THEN blame \cup {"ExtFieldsUnvalidated"} ELSE blame \cup {"ImageNameUnconfined"}
+                              ELSE IF IllTyped THEN blame \cup {"ExtFieldsUnvalidated"}
+                              ELSE IF name.look # "ascii" THEN blame \cup {"NormaliseAfterSanitise"}
+                              ELSE blame \cup {"ImageNameUnconfined"}
                   /\ IF icase.ext = "filterill"                 \* the file is open when PDFStream.decode meets the filter
                      THEN err' = "PDFNotImplementedError" /\ phase' = "done"
                      ELSE err' = err /\ phase' = IF drawn + 1 = icase.draws THEN "done" ELSE "img_name"
@@ -266,7 +285,7 @@ Spec == Init /\ [][Next]_vars
 \* every file opened for reading is a resource inside a resource directory (the input is passed in open)
 ReadsConfined == \A r \in reads : InResource(r[1]) \/ blame \cap {"CMapNameUnconfined", "ContainmentByCharacters", "ScreenBeforeStrip", "CheckedAgainstOneDirectory"} # {}
 \* every file created lies inside the output directory
-WritesConfined == \A k \in 1..Len(creates) : InOut(creates[k].dir) \/ blame \cap {"ImageNameUnconfined", "ExtFieldsUnvalidated"} # {}
+WritesConfined == \A k \in 1..Len(creates) : InOut(creates[k].dir) \/ blame \cap {"ImageNameUnconfined", "ExtFieldsUnvalidated", "NormaliseAfterSanitise"} # {}
 \* a path that exists is never opened for writing
 NeverOverwrite == \A k \in 1..Len(creates) : ~creates[k].existed
 \* two exports never land on the same file
